@@ -582,6 +582,15 @@ def main():
             os.unlink(os.environ["VERIF_DRIVER_EXE"])
     except OSError:
         pass
+    if REPO != Path("/repo"):
+        # an experiment on another checkout: put the generated tables back to what /repo says, so that nobody else building in
+        # lean/ meanwhile sees tables of the scratch tree
+        try:
+            import translate
+            with LakeLock():
+                translate.run(Path("/repo"), LEAN / "CsVerif" / "Gen", {})
+        except Exception:  # noqa: BLE001
+            pass
     print(f"{pid} {args.tier}: theorems={len(lean['theorems'])} proof_ok={lean['ok']} cases={total} "
           f"distinct_nontrivial={len(distinct)} diffs={len(diffs)} known={len(known_hit)} wall={wall:.1f}s")
     return exit_code
